@@ -16,7 +16,8 @@ EXPLANATION = (
     'pattern descriptor with one and the same order, sort_by reaches reorder with a stable argsort; (PURE-scope) the '
     'in-place API writes only the object it is called on; (DESC) descriptor values are normalised before ndarray-only '
     'operations; (TAB) to_dict / rdms_from_dict / rdms_to_df cover all five fields. Value association after arbitrary '
-    'histories and size recovery from the vector length are NOT decided.')
+    'histories and size recovery from the vector length are NOT decided.'
+    ' Also: (SEL-DESC) selectors read the descriptor values; (REORDER) what sort_by hands to reorder is a permutation (no first-occurrence look-ups); (HALF-FILLED) one-triangle look-up matrices are read with ascending indices only.')
 ASSUMPTIONS = ['axis/descriptor table: dissimilarities axis 0 <-> rdm_descriptors, matrix axes 1,2 <-> pattern_descriptors',
                'exceptions to field provenance listed in sa/props/c10.py EXC with reasons']
 FLOOR = 60
